@@ -779,7 +779,9 @@ theorem SimG.widen {α β} {C : α → β → Prop} {t : ATag} {xs : List Val} {
     {extra : List Cat} {r : Res α} {r' : Res β} (h : SimG C r r') : SimG C (widen t xs fs extra r) r' := by
   cases r with
   | ok a => exact h
-  | err cs => simp only [_root_.Jmes.widen]; split <;> exact SimG.err
+  | err cs =>
+    simp only [_root_.Jmes.widen]
+    split <;> (try split) <;> first | exact SimG.err | exact SimG.of_not_ok (by intro a e; cases e)
   | _ => exact SimG.of_not_ok (by intro a e; cases e)
 
 /-! the four loops as traversals -/
